@@ -32,12 +32,14 @@ def check(repo, col, tier):
     col.rule("R-C08-time", "padding / truncation / transposition of externals", 6)
     col.rule("R-C08-recs", "recs = concat([init, recordings[:n]]).T", 3)
     col.rule("R-C08-sibling", "stimulate/clamp and their data_ twins agree", 6)
+    col.rule("R-C08-pairing", "values and row indices of inputs are extended in the same order", 3)
     cl = idx.compute_slots(repo, col, "R-C08-space", emit=("jaxedges", "rec_index", "external_inds"))
     _space_uses(repo, col, cl)
     _order(repo, col)
     _time(repo, col)
     _recs(repo, col)
     _sibling(repo, col)
+    _pairing(repo, col)
     from . import c06
     c06.checkpoint_padding(repo, col, "R-C08-time")
 
@@ -69,7 +71,8 @@ def _space_uses(repo, col, cl: Classifier):
                 ix = sub_ex.term(n.slice)
                 sites += idx.check_site(repo, col, cl, R, sub_ex.fi, "gather", arr, ix, n)
     if sites < 2:
-        raise AnalysisError("integrate: recording gathers state[rec_state][rec_ind] not found")
+        col.unk(R, fi, "integrate: recording gathers state[rec_state][rec_ind]", "index space of the recording gathers is not derivable",
+                node=fi.node)
 
     # ---- step: clamp scatters
     fi = repo.method("Module", "step")
@@ -150,6 +153,51 @@ def _space_uses(repo, col, cl: Classifier):
             uses_index = any(x.op == "attr" and x.name == "index" for x in v.walk())
             col.check(uses_index, R, fi, f"add_clamps: {unparse(s.node)} takes the row labels of the handed-over table",
                       "row labels (.index) of the table", f"stores {v.short()}", node=s.node)
+
+
+def _pairing(repo, col):
+    """Values and row indices of external inputs are extended in the same order."""
+    R = "R-C08-pairing"
+    for file_fn in (("jaxley/integrate.py", "add_stimuli"), ("jaxley/integrate.py", "add_clamps")):
+        fi = repo.func(*file_fn)
+        ex = idx.expander(repo, fi)
+        by_guard = {}
+        for s in ex.stores:
+            if s.kind == "sub" and s.base.op == "param" and s.base.name in ("externals", "external_inds"):
+                by_guard.setdefault(tuple(g.key() for g in s.guards), {})[s.base.name] = s
+        for g, d in by_guard.items():
+            if set(d) != {"externals", "external_inds"}:
+                col.bad(R, fi, f"{fi.name}: values and indices stored together", f"only {sorted(d)} stored on one path", node=list(d.values())[0].node)
+                continue
+            pos = {}
+            for nm, s in d.items():
+                v = s.value
+                if v.op == "mcall" and v.name == "concatenate" and v.args[1].op in ("list", "tuple") and len(v.args[1].args) == 2:
+                    first = v.args[1].args[0]
+                    pos[nm] = "old-first" if (first.op == "sub" and first.args[0].op == "param" and first.args[0].name == nm) else "new-first"
+                else:
+                    pos[nm] = "assign"
+            ok = len(set(pos.values())) == 1
+            col.check(ok, R, fi, f"{fi.name}: values and row indices are extended in the same order ({list(pos.values())[0]})",
+                      str(pos),
+                      f"{fi.name} extends the values as {pos['externals']} but the row indices as {pos['external_inds']}: every "
+                      f"stimulus/clamp is applied to another input's compartment", node=d["external_inds"].node)
+    fi = repo.method("Module", "_external_input")
+    ex = idx.expander(repo, fi)
+    d = {}
+    for s in ex.stores:
+        if s.kind == "sub" and s.base.op == "attr" and s.base.name in ("externals", "external_inds") and s.value.op == "mcall" and s.value.name == "concatenate":
+            first = s.value.args[1].args[0]
+            d[s.base.name] = ("old-first" if T.find(first, lambda x: x.op == "attr" and x.name == s.base.name) is not None else "new-first", s)
+    if len(d) == 2:
+        ok = d["externals"][0] == d["external_inds"][0]
+        col.check(ok, R, fi, "_external_input: values and row indices are appended in the same order", str({k: v[0] for k, v in d.items()}),
+                  "values and indices are appended in different orders", node=d["external_inds"][1].node)
+    fi = repo.method("Module", "_data_external_input")
+    src = unparse(fi.node)
+    ok = "external_input = jnp.concatenate([external_input, state_array])" in src and "inds = pd.concat([inds, view])" in src
+    col.check(ok, R, fi, "_data_external_input: values and rows are appended in the same order", "[old, new] for both",
+              "data inputs and their rows are appended in different orders", node=fi.node)
 
 
 def _inside_nested(fn, node):
@@ -383,10 +431,37 @@ def _recs(repo, col):
             asg_names = unparse(asg.value)
             col.check("nsteps_to_return" in asg_names and len(nm) >= 1, R, fi, "bound is the requested number of steps",
                       "nsteps_to_return", f"recordings are cut at `{upper.short()}`", node=asg)
-    # order of rows: rec_inds / rec_states both from module.recordings, zipped in the same order in both gathers
-    zips = [unparse(n) for n in ast.walk(fn) if isinstance(n, ast.Call) and isinstance(n.func, ast.Name) and n.func.id == "zip"]
-    col.check(len(zips) >= 2 and len(set(zips)) == 1, R, fi, "both gathers iterate the recordings in table order",
-              zips[0] if zips else "", f"the initial and per-step gathers iterate differently: {zips}", node=asg)
+    # order of rows: one row per recording, in the order of the recordings table, in both gathers
+    body = ex.nested.get("_body_fun")
+    gathers = []
+    if body is not None and body.returns and body.returns[0].op == "tuple":
+        gathers.append(("per-step", body.returns[0].args[1], body.fi))
+    ir = next((n for n in walk_no_nested(fn) if isinstance(n, ast.Assign) and isinstance(n.targets[0], ast.Name) and n.targets[0].id == "init_recs"), None)
+    if ir is not None:
+        gathers.append(("initial", ex.term(ir.value), fi))
+    if len(gathers) < 2:
+        raise AnalysisError("integrate: recording gathers not found")
+    forms = []
+    for lab, t, gfi in gathers:
+        regroup = T.find(t, lambda x: (x.op in ("mcall", "call")) and x.name in ("unique", "groupby", "sort", "argsort", "sorted", "sort_values", "set"))
+        cmpz = T.find(t, lambda x: x.op == "comp" and len(x.args) >= 2 and x.args[1].op == "call" and x.args[1].name == "zip")
+        in_order = cmpz is not None and len(cmpz.args[1].args) == 2 and \
+            all(T.find(a, lambda x: x.op == "attr" and x.name == "recordings") is not None for a in cmpz.args[1].args) and \
+            t.op == "mcall" and t.name in ("asarray", "array", "stack")
+        forms.append(cmpz.args[1].key() if cmpz is not None else None)
+        col.add(R, gfi, f"{lab} gather: one row per recording in the order of the recordings table",
+                "DISCHARGED" if (in_order and regroup is None) else ("VIOLATED" if regroup is not None else "UNDECIDED"),
+                "rows are stacked from a single pass over zip(rec_states, rec_inds)" if in_order and regroup is None else
+                (f"the {lab} gather regroups the recordings with `{regroup.name}` ({regroup.short(60)}): rows come back grouped, not in "
+                 f"the order record() was called (e.g. v@A, m@A, v@B is returned as v@A, v@B, m@A)" if regroup is not None else
+                 f"row order of {t.short(80)} not derivable"), node=t.node or fn)
+    col.check(len(set(forms)) == 1 and forms[0] is not None, R, fi, "initial and per-step gathers iterate the same sequence",
+              "same zip(rec_states, rec_inds)", "the initial column and the per-step rows are gathered in different orders", node=asg)
+    rs = [n for n in walk_no_nested(fn) if isinstance(n, ast.Assign) and isinstance(n.targets[0], ast.Name) and n.targets[0].id in ("rec_inds", "rec_states")]
+    want = {"rec_inds": "module.recordings.rec_index.to_numpy()", "rec_states": "module.recordings.state.to_numpy()"}
+    for n in rs:
+        col.check(unparse(n.value) == want[n.targets[0].id], R, fi, f"{n.targets[0].id} is the column of the recordings table, in table order",
+                  want[n.targets[0].id], f"{n.targets[0].id} = {unparse(n.value)}", node=n)
 
 
 def _sibling(repo, col):
